@@ -222,7 +222,7 @@ impl<'a> Tiler<'a> {
 
 pub fn check(c: &Case) -> Verdict {
     let data = &c.input.0;
-    if refxml::is_utf16_like(data) {
+    if cfg!(feature = "full") && refxml::is_utf16_like(data) {
         return Verdict::excluded("utf16-signature");
     }
     let mut t = Tiler { data, off: None, prev: 0, events: 0, markup: 0, out: vec![], plain: true, raw_bom_skipped: false };
